@@ -391,7 +391,7 @@ PROPS = {
     "C09": {
         "modules": ["BpModel.Props.C09"],
         "theorems": ["Bp.C09.C09_string_literal_total", "Bp.C09.C09_expr_parser_fuel", "Bp.C09.C09_tokenizer_fuel", "Bp.C09.C09_eval_classified",
-                     "Bp.C09.C09_import_fuel", "Bp.C09.C09_escapes_tied", "Bp.C09.C09_lexer_total", "Bp.C09.C09_token_lines"],
+                     "Bp.C09.C09_import_fuel", "Bp.C09.C09_escapes_tied", "Bp.C09.C09_lexer_total", "Bp.C09.C09_token_lines", "Bp.C09.C09_grammar_total"],
         "explore": _c09,
         "correspondence": "exception class escaping parse() / render_string() and wall clock per input (worker pool under an interval timer); real CLI exit "
                           "status and stderr on a sample; t_STRING_LITERAL vs Lexer.lexString and constant expressions vs Expr.evalText (native driver)",
